@@ -256,6 +256,33 @@ def _strip(e: Any) -> Any:
     return json.loads(json.dumps(e))
 
 
+def mon_c03_deletion(ctx: Any, run: cs.Run) -> None:
+    """A deletion is an outstanding change as well: "every handler selected for the outstanding change has completed".  The
+    object cannot be judged once it is gone, so this is judged at the moment the operator lets it go: when the framework's
+    finalizer is removed from an object marked for deletion, every mandatory deletion handler of the scenario must have finished
+    (succeeded, failed for good or exhausted its retries) with reason=delete for that object - afterwards it can never run."""
+    w = run.world
+    assert w is not None
+    fin = cs.FINALIZER
+    dels = [h for h in run.scenario['handlers'] if h['kind'] == 'delete' and not h.get('kwargs', {}).get('optional')]
+    for q in _op_patches(run):
+        if q.status != 200 or q.before is None or not q.before['metadata'].get('deletionTimestamp'):
+            continue
+        fb = list(q.before['metadata'].get('finalizers', []))
+        fa = list(q.after['metadata'].get('finalizers', [])) if q.after is not None else None
+        if not (fin in fb and (fa is None or fin not in fa)):
+            continue
+        uid = q.before['metadata']['uid']
+        ctx.count('c03_deletion', f'released with {len(dels)} mandatory deletion handlers')
+        for h in dels:
+            calls = [c for c in w.calls if c['handler'] == h['id'] and c['uid'] == uid and c['order'] < q.order and not c.get('aborted')
+                     and c['reason'] == 'delete']
+            if not [c for c in calls if c['outcome'] in FINAL or _exhausted(run, c)]:
+                ctx.fail('the object was released for deletion although a handler selected for the deletion never completed',
+                         _case(run, request=q.brief(), handler=h['id'], obj=q.before['metadata']['name']),
+                         observed=[{k: c[k] for k in ('t', 'inc', 'retry', 'outcome')} for c in calls][-4:], sig='deletion-handler-incomplete')
+
+
 def mon_c03_downtime(ctx: Any, run: cs.Run) -> None:
     """Changes made while the operator was down are handled as ONE accumulated change."""
     w = run.world
